@@ -31,4 +31,8 @@ for fn in F.functions.values():
     if len(cs) == 1 and cs[0] in F.functions:
         c = F.functions[cs[0]]
         hosts["%s/%d" % (fn.qn, len(fn.params))] = {"qn": c.qn, "nparams": len(c.params), "key": c.key}
+    elif 1 < len(cs) <= 3 and all(c in F.functions and F.functions[c].cls == fn.cls and fn.cls for c in cs):
+        # a few callers in the same class (e.g. a shared constructor body): after inlining, the statements live in the largest
+        c = max((F.functions[c] for c in cs), key=lambda f: len(f.nodes))
+        hosts["%s/%d" % (fn.qn, len(fn.params))] = {"qn": c.qn, "nparams": len(c.params), "key": c.key, "one_of": len(cs)}
 print(json.dumps({"records": out, "single_caller_helpers": hosts}, indent=1))
